@@ -273,6 +273,28 @@ class VModule(Value):
         self.name = name
 
 
+class VModel(Value):
+    """contract-defined model object: subclasses override contains/getitem/setitem/getattr/call"""
+
+    def contains(self, I, item):
+        raise Unsupported('in on %r' % (self,))
+
+    def getitem(self, I, idx):
+        raise Unsupported('subscript of %r' % (self,))
+
+    def setitem(self, I, idx, val):
+        raise Unsupported('subscript store on %r' % (self,))
+
+    def getattr(self, I, name):
+        raise Unsupported('attribute %s of %r' % (name, self))
+
+    def setattr(self, I, name, val):
+        raise Unsupported('attribute store %s on %r' % (name, self))
+
+    def truthy(self, I):
+        return z3.BoolVal(True)
+
+
 class VGen(Value):
     """a generator expression / lazy iterable over concrete items"""
 
